@@ -5,7 +5,7 @@
 (* action constraint EmitBehaviour) prints one behaviour per transition of *)
 (* the reduced graph; those behaviours are replayed into the real code.    *)
 (***************************************************************************)
-EXTENDS ChfSeq, Json
+EXTENDS ChfSeq, Json, TLCExt
 
 CONSTANTS
   Subs,        \* subscriber tokens, e.g. {"1","2"}   (SUPI = "imsi-" \o token)
@@ -23,8 +23,12 @@ CONSTANTS
   TwoEntries,  \* TRUE: updates may carry two usage entries (distinct rating groups)
   BadRefs,     \* TRUE: updates/releases may name unknown / foreign references and unknown subscribers
   WellBehaved, \* TRUE: used <= last grant (C06 consumer)
+  AskAfterFinal, \* TRUE: a consumer may ask for units in a FINAL report or after a final-unit indication
+  KnownDebitNoFui, \* TRUE: recorded finding -- the debit branch answers 0 units without final-unit indication
+
   Lrsn0,
   Recharges,   \* TRUE: recharge notifications
+  SinkAnswers, \* statuses the consumer's notification endpoint may answer a re-authorisation notification with
   Traffic,     \* numbers of unrelated one-time creates (they advance the global record counter)
   EmitOneIn    \* behaviour emission: print one transition in EmitOneIn (seeded by -seed)
 
@@ -71,19 +75,40 @@ Init ==
 Steps == Len(hist) - 1
 
 \* ---- clause evaluation on a step (same operators the trace judge uses) ----
-RECURSIVE GAFlags(_, _, _, _, _)
-GAFlags(pre, u, usage, mui, i) ==
+RECURSIVE GAFlags(_, _, _, _, _, _)
+GAFlags(pre, u, usage, mui, trig, i) ==
   IF i > Len(usage) THEN {}
   ELSE LET js == {j \in 1..Len(mui) : mui[j].rg = usage[i].rg}
-           bad == \E j \in js : usage[i].req >= 0 /\ HasOnline(usage[i])
-                                /\ ~GrantAffordable(pre, u, usage[i], mui[j])
-       IN (IF bad THEN {"C06.grant_affordable"} ELSE {}) \cup GAFlags(pre, u, usage, mui, i + 1)
+           bad == \E j \in js : /\ usage[i].req >= 0 /\ HasOnline(usage[i])
+                                /\ \/ ~GrantWithin(pre, h, u, usage[i], mui[j])
+                                   \/ (~GrantFui(pre, h, u, usage[i], mui[j])
+                                       /\ ~(KnownDebitNoFui /\ DebitMode(pre, u, usage[i].rg, trig)))
+       IN (IF bad THEN {"C06.grant_affordable"} ELSE {}) \cup GAFlags(pre, u, usage, mui, trig, i + 1)
 
 StateFlags(s2, h2) ==
      {"C01.conservation" : k \in {k \in Keys : ~ConservationAt(s2, h2, KeyU(k), KeyG(k))}}
   \cup (IF WellBehaved THEN {"C06.no_overdraft" : k \in {k \in Keys : ~NoOverdraftAt(s2, k)}} ELSE {})
   \cup {"C02.exactly_once" : r \in {r \in Dom(h2.sess) : ~ExactlyOnceAt(s2, h2, r)}}
   \cup {"C02.record_identity" : r \in {r \in Dom(h2.sess) : ~RecordIdentityAt(s2, h2, r)}}
+
+\* ---- structural signature of a step (selection aid only: behaviours are sampled evenly over signature sequences) ----
+Sgn(x) == IF x > 0 THEN 1 ELSE IF x < 0 THEN -1 ELSE 0
+EntrySig(pre, post, u, us, mui, trig) ==
+  IF ~HasOnline(us) THEN <<"off", Len(us.conts)>>
+  ELSE LET k  == Key(u, us.rg)
+           js == {j \in 1..Len(mui) : mui[j].rg = us.rg}
+           g  == IF js = {} THEN "none"
+                 ELSE LET m == mui[CHOOSE j \in js : TRUE] IN
+                      (IF m.granted = 0 THEN "zero" ELSE IF m.granted >= us.req THEN "full" ELSE "part")
+                      \o (IF m.fui THEN "F" ELSE "")
+       IN <<IF DebitMode(pre, u, us.rg, trig) THEN "D" ELSE "R", us.req >= 0, OnlineVol(us) > 0,
+            us.req >= 0 /\ Short(pre, h, u, us), g, Sgn(post.acct[k].quota - pre.acct[k].quota),
+            Sgn(Reserved(post, u, us.rg) - Reserved(pre, u, us.rg))>>
+NRecs(s, u) == IF u \in Dom(s.ue) THEN Len(s.ue[u].recs) ELSE 0
+NSess(s, u) == IF u \in Dom(s.ue) THEN Cardinality(Dom(s.ue[u].cdr)) ELSE 0
+StepSig(what, pre, post, u, usage, resp, trig) ==
+  ToString(<<what, resp.status, trig, NRecs(post, u) - NRecs(pre, u), NSess(pre, u),
+             [i \in 1..Len(usage) |-> EntrySig(pre, post, u, usage[i], IF "mui" \in DOMAIN resp THEN resp.mui ELSE <<>>, trig)]>>)
 
 \* ---- steps ----
 DoCreate ==
@@ -101,7 +126,8 @@ DoCreate ==
           /\ labels' = Upd(labels, lab, [ref |-> r.resp.ref, u |-> u, live |-> TRUE])
           /\ nid' = nid + CountC(tpl, 1)
           /\ hist' = Append(hist, [a |-> "create", u |-> u, s |-> lab, c |-> c, usage |-> tpl,
-                                   pad |-> pad, chid |-> a.chid])
+                                   pad |-> pad, chid |-> a.chid,
+                                   sig |-> StepSig("create", st, r.st, u, us, r.resp, <<>>)])
 
 Targets == {[s |-> l, u |-> labels[l].u, ref |-> labels[l].ref] : l \in {x \in Dom(labels) : labels[x].live \/ BadRefs}}
            \cup (IF BadRefs THEN {[s |-> "none", u |-> u, ref |-> "no-such-ref"] : u \in Subs}
@@ -120,7 +146,7 @@ UsageOK(u, tpl, tg) ==
      /\ (HasOnline(e) /\ e.req = -1 /\ DEV_NilRequestedUnitPanics => debit)  \* as-is: reserve mode needs a requested unit
      /\ (WellBehaved /\ HasOnline(e) =>
             /\ OnlineVol(e) <= LastGrant(u, e.rg).g      \* never uses more than it was granted
-            /\ (debit => e.req = -1))                   \* told "final units": reports, does not ask again
+            /\ (debit /\ ~AskAfterFinal => e.req = -1)) \* told "final units": reports, does not ask again
      /\ (\A j \in 1..Len(tpl) : j # i => tpl[j].rg # e.rg)
 
 DoUpdate ==
@@ -139,10 +165,11 @@ DoUpdate ==
            h2  == HUpdate(h, a, r.resp)
        IN /\ st' = r.st /\ h' = h2
           /\ flags' = StateFlags(r.st, h2)
-                      \cup (IF r.resp.status = 200 THEN GAFlags(pre, t.u, us, r.resp.mui, 1) ELSE {})
+                      \cup (IF r.resp.status = 200 THEN GAFlags(pre, t.u, us, r.resp.mui, TrigSeq(tg), 1) ELSE {})
                       \cup (IF r.resp.status >= 400 /\ r.st # pre THEN {"C12.rejection_no_effect"} ELSE {})
           /\ nid' = nid + CountC(tpl, 1)
-          /\ hist' = Append(hist, [a |-> "update", u |-> t.u, s |-> t.s, usage |-> tpl, trig |-> TrigSeq(tg)])
+          /\ hist' = Append(hist, [a |-> "update", u |-> t.u, s |-> t.s, usage |-> tpl, trig |-> TrigSeq(tg),
+                                   sig |-> StepSig("update", pre, r.st, t.u, us, r.resp, TrigSeq(tg))])
           /\ UNCHANGED labels
 
 DoRelease ==
@@ -163,16 +190,17 @@ DoRelease ==
                       \cup (IF r.resp.status >= 400 /\ r.st # pre /\ ~(t.u \in Dom(pre.ue) /\ t.ref \in Dom(pre.ue[t.u].cdr))
                               THEN {"C12.rejection_no_effect"} ELSE {})
           /\ nid' = nid + CountC(tpl, 1)
-          /\ hist' = Append(hist, [a |-> "release", u |-> t.u, s |-> t.s, usage |-> tpl, trig |-> TrigSeq(tg)])
+          /\ hist' = Append(hist, [a |-> "release", u |-> t.u, s |-> t.s, usage |-> tpl, trig |-> TrigSeq(tg),
+                                   sig |-> StepSig("release", pre, r.st, t.u, us, r.resp, TrigSeq(tg))])
           /\ labels' = IF r.resp.status = ok /\ t.s \in Dom(labels) /\ labels[t.s].u = t.u
                           THEN [labels EXCEPT ![t.s].live = FALSE] ELSE labels
 
 DoRecharge ==
   /\ Recharges
-  /\ \E u \in Subs, g \in RGs :
+  /\ \E u \in Subs, g \in RGs, ans \in SinkAnswers :
        LET r == Recharge(st, [u |-> u, rg |-> g]) IN
        /\ st' = r.st /\ flags' = StateFlags(r.st, h)
-       /\ hist' = Append(hist, [a |-> "recharge", u |-> u, rg |-> g])
+       /\ hist' = Append(hist, [a |-> "recharge", u |-> u, rg |-> g, ans |-> ans])
        /\ UNCHANGED <<h, nid, labels>>
 
 \* unrelated traffic: k one-time events of subscriber "9" (each takes a record sequence number)
@@ -205,6 +233,12 @@ Spec == Init /\ [][Next]_vars
 View == <<st, h, labels, flags, Steps>>
 
 EmitBehaviour == IF RandomElement(1..EmitOneIn) = 1 THEN PrintT(<<"VF-BEH", ToJson(hist')>>) ELSE TRUE
+
+\* the labelled state graph for the runner: one line per transition with 64-bit identifiers of the source and target
+\* (fingerprints of the VIEW), the step taken (with its signature) and, for initial states, the set-up record
+Fp(v) == <<TLCFP(v), TLCFP(<<v, 1>>)>>
+EmitEdge == PrintT(<<"VF-EDGE", ToJson([s |-> Fp(View), d |-> Fp(View'), step |-> hist'[Len(hist')],
+                                        setup |-> IF Steps = 0 THEN hist[1] ELSE [a |-> "-"]])>>)
 
 \* ---- invariants (one per property clause) ----
 \* a violated invariant prints the offending behaviour as JSON so that it can be replayed into the code
